@@ -143,3 +143,29 @@ Lemma validation_same :
   forall (f f' : fragment) (s s' : schema) (A : Type) (verdict : schema -> A),
     resolve f = SOk s -> resolve f' = SOk s' -> s = s' -> verdict s = verdict s'.
 Proof. intros. subst. reflexivity. Qed.
+
+(* ------------------------------------------------------------------------------------------
+   The full round-trip statement is FALSE of the faithful model: fmt.rs's collision test skips the empty
+   namespace, so a must-be-entity reference to `Foo` is printed as the bare name `Foo`, which the Cedar parser
+   reads as entity-or-common and resolves to the common type `Foo`. *)
+Definition collision_witness : fragment :=
+  [mkNs [] [(s2str "Foo", XPrim PLong)]
+        [(s2str "Foo", EStd [] (XRecord [] false) None);
+         (s2str "Bar", EStd [] (XRecord [(s2str "a", (XEntity [s2str "Foo"], true))] false) None)]
+        []].
+
+Lemma cedar_roundtrip_refuted :
+  exists f f' s s',
+    cedar_roundtrip f = Some f' /\ resolve f = SOk s /\ resolve f' = SOk s' /\ s <> s'.
+Proof.
+  exists collision_witness. eexists. eexists. eexists.
+  split; [vm_compute; reflexivity|].
+  split; [vm_compute; reflexivity|].
+  split; [vm_compute; reflexivity|].
+  intro H. discriminate H.
+Qed.
+
+(* the same fragment with the collision in a NON-empty namespace is refused by the printer *)
+Lemma collision_in_namespace_refused :
+  cedar_roundtrip (map (fun ns => mkNs [s2str "NS"] (ns_commons ns) (ns_entities ns) (ns_actions ns)) collision_witness) = None.
+Proof. vm_compute. reflexivity. Qed.
